@@ -64,12 +64,13 @@ def fingerprint(case) -> str:
 
 
 def load_known(prop_id):
-    path = os.path.join(VERIF, "known_findings.jsonl")
+    """JSON lines of known_findings.txt for this property ("fixed:" lines suppress nothing)."""
+    path = os.path.join(VERIF, "known_findings.txt")
     out = []
     if os.path.exists(path):
         for line in open(path):
             line = line.strip()
-            if not line or line.startswith("#"):
+            if not line.startswith("{"):
                 continue
             rec = json.loads(line)
             if rec.get("property") == prop_id:
@@ -214,9 +215,9 @@ def run_shards(mod, tier, seed):
 
 
 def bucket_matches(rec_bucket: str, bucket: str) -> bool:
-    if rec_bucket.endswith("*"):
-        return bucket.startswith(rec_bucket[:-1])
-    return rec_bucket == bucket
+    import fnmatch
+
+    return fnmatch.fnmatchcase(bucket, rec_bucket)
 
 
 def shrink_bucket(mod, case, bucket, time_cap):
